@@ -147,6 +147,14 @@ def F_check(ctx, lib):
                 ok = not [1 for e, v in cmp_ if kernel.int_of(v) == 0]
                 nxt = kernel.cond_val(p, lambda e: e[0] == "app" and e[1] == "discr" and symx.contains(e, lambda n: n[0] == "app" and flow.last(n[1]) == "next"))
                 ctx.ob(rule, "stability_check.true-only-after-all", ok and kernel.int_of(nxt) == 0, where=b.where(), expected="true only when the loop is exhausted without mismatch", found=p.describe()[:240])
+        # every position is compared: a round of the comparison loop (item fetched, back edge taken) carries the comparison of that item - a guard that skips
+        # the comparison for some positions (e.g. only the accepted statements) lets non-models through
+        for p in paths:
+            nxt_ = kernel.cond_val(p, lambda e: e[0] == "app" and e[1] == "discr" and symx.contains(e, lambda n: n[0] == "app" and flow.last(n[1]) == "next")
+                                   and symx.contains(e, lambda n: n[0] == "app" and flow.last(str(n[1])) == "grounded_internal"))
+            if p.end == "backedge" and nxt_ is not None and kernel.int_of(nxt_) == 1:
+                cmpv = [kernel.int_of(v) for e, v in p.cond if is_call(deep_strip(e), "Term::compare_inf")]
+                ctx.ob(rule, "stability_check.every-position-compared", cmpv == [1], where=b.where(), expected="each round evaluates grd[i].compare_inf(&interpretation[i])", found=p.describe()[:240])
         for p in paths:
             cmp_ = [kernel.int_of(v) for e, v in p.cond if is_call(deep_strip(e), "Term::compare_inf")]
             if 0 in cmp_:
@@ -371,12 +379,15 @@ def check(ctx):
         ctx.rule(rule, "restriction idiom REDUCT at the reduct sites: class(entry i) B -> restrict(acc, Var(i), false); T, U -> acc (native: stable, "
                        "stable_bdd_representation, stability_check, second half of stable_with_prefilter; biodivine: the two reduction_list closures); "
                        "FULL for the pre-filter and for grounded_internal, which every check calls")
-        k, seen = semantics.F_restrict_native(ctx, lib, rule, only={"Adf::stable", "Adf::stable_bdd_representation", "Adf::stability_check",
+        # (Adf::stability_check is not part of this property: it is the acceptance test of the counting-guided and the nogood search, C04 / C05)
+        k, seen = semantics.F_restrict_native(ctx, lib, rule, only={"Adf::stable", "Adf::stable_bdd_representation",
                                                                      "Adf::stable_with_prefilter", "Adf::grounded_internal"})
-        ctx.floor(rule, "native restriction sites", k, 6)
+        ctx.floor(rule, "native restriction sites", k, 5)
         kb = semantics.bio_list_tables(ctx, lib, rule, which=("var_list", "reduction"))
         ctx.floor(rule, "biodivine list constructions", kb, 3)
+        n0 = len(ctx.obligations)
         F_check(ctx, lib)
+        ctx.obligations[n0:] = [o for o in ctx.obligations[n0:] if not str(o.key).startswith("stability_check")]
         F_cand(ctx, lib)
         A_rewrite(ctx, lib)
         rule = "S.X-exhaust"
